@@ -42,6 +42,40 @@ func notAnEntryBlock() []byte {
 	return n.RawData()
 }
 
+// callHang runs fn on its own goroutine and decides on STATE whether it hangs:
+// hung = fn has not returned although the store has had no request in flight and
+// no event for several polls after a grace period. A hard wall-clock cap without
+// that state is reported as inconclusive (returned=false, dump="").
+func callHang(st *store.Store, grace time.Duration, fn func()) (returned bool, dump string) {
+	done := make(chan struct{})
+	go func() { defer close(done); fn() }()
+	start := time.Now()
+	lastSeq, stable := int64(-1), 0
+	for {
+		select {
+		case <-done:
+			return true, ""
+		case <-time.After(50 * time.Millisecond):
+		}
+		if time.Since(start) < grace {
+			continue
+		}
+		seq := st.Seq()
+		if st.Inflight() == 0 && seq == lastSeq {
+			stable++
+		} else {
+			stable = 0
+		}
+		lastSeq = seq
+		if stable >= 6 {
+			return false, goroutineDump()
+		}
+		if time.Since(start) > 120*time.Second {
+			return false, ""
+		}
+	}
+}
+
 type faultPlan struct {
 	Kind    map[string]string `json:"kind"` // hash -> absent|error|garbage|not-entry|hang|removed
 	Excl    []string          `json:"excluded"`
@@ -210,9 +244,9 @@ func c11Case(run *evid.Run, i int, j *Journal) {
 			hung := false
 			dump := ""
 			watch := func() {
-				deadline := time.Duration(p.Timeout)*time.Millisecond + 3*time.Second
+				deadline := time.Duration(p.Timeout)*time.Millisecond + 1500*time.Millisecond
 				if p.Timeout == 0 || p.Timeout > 10000 {
-					deadline = 3 * time.Second
+					deadline = 1500 * time.Millisecond
 				}
 				lastSeq, stable := int64(-1), 0
 				for {
